@@ -1957,3 +1957,98 @@ def reuse(e, rep, run, newrule, text, only=None, suffix=''):
     rep.evaluations += sub.evaluations
     rep.functions |= sub.functions
     rep.tables |= getattr(sub, 'tables', set())
+
+
+# ------------------------------------------------------ try scope of _attempt
+OUTCOME_RECORDERS = ('_handle_partial_relay', '_perm_fail', '_remove',
+                     '_retry_later', '_bounce')
+
+
+def attempt_try_scope(e, rep, rule, consequence,
+                      cls_qname='slimta.queue.Queue'):
+    """The catch-all arm of Queue._attempt files the *whole, unmodified*
+    envelope for another attempt.  That is the right answer to a relay that
+    raised - nothing was settled yet - and the wrong one once the outcome is
+    being recorded: the try it belongs to covers the relay call only.  The
+    statements of the try body are followed through `self.m(...)` calls; none
+    of them may reach a method that records an outcome (bounce, removal,
+    retry, settled marks)."""
+    import ast as _ast
+    from ..model import walk_own
+    c = merged_class(e, cls_qname)
+    m = c.methods.get('_attempt')
+    if m is None:
+        rep.error('anchor vanished: %s._attempt' % cls_qname)
+        return
+
+    def catch_all(h):
+        t = h.type
+        if t is None:
+            return True
+        names = [t] if not isinstance(t, _ast.Tuple) else list(t.elts)
+        return any(isinstance(x, _ast.Name) and
+                   x.id in ('Exception', 'BaseException') for x in names)
+
+    def self_calls(node):
+        for x in _ast.walk(node):
+            if isinstance(x, _ast.Call) and \
+                    isinstance(x.func, _ast.Attribute) and \
+                    isinstance(x.func.value, _ast.Name) and \
+                    x.func.value.id == 'self':
+                yield x
+
+    def reaches(stmts):
+        seen, todo, hit = set(), [], None
+        for s in stmts:
+            for x in self_calls(s):
+                todo.append((x.func.attr, x, x))
+            for x in _ast.walk(s):
+                if isinstance(x, _ast.Call) and \
+                        isinstance(x.func, _ast.Attribute) and \
+                        x.func.attr == 'set_recipients_delivered':
+                    return x, 'set_recipients_delivered'
+        while todo:
+            name, site, first = todo.pop()
+            if name in OUTCOME_RECORDERS:
+                return first, name
+            if name in seen or name not in c.methods:
+                continue
+            seen.add(name)
+            for x in self_calls(c.methods[name].node):
+                todo.append((x.func.attr, x, first))
+            for x in _ast.walk(c.methods[name].node):
+                if isinstance(x, _ast.Call) and \
+                        isinstance(x.func, _ast.Attribute) and \
+                        x.func.attr == 'set_recipients_delivered':
+                    return first, 'set_recipients_delivered'
+        return hit, None
+
+    where = m.qname
+    rep.functions.add(where)
+    n = 0
+    for t in walk_own(m.node):
+        if not isinstance(t, _ast.Try):
+            continue
+        arms = [h for h in t.handlers if catch_all(h) and any(
+            isinstance(x, _ast.Attribute) and x.attr == '_retry_later'
+            for s in h.body for x in _ast.walk(s))]
+        if not arms:
+            continue
+        n += 1
+        rep.evaluations += 1
+        site, name = reaches(t.body)
+        rep.check(name is None, rule, where,
+                  'the try whose catch-all arm files the whole envelope for '
+                  'a retry covers the relay call only',
+                  'a failure while the outcome of the attempt is being '
+                  'recorded (%s reached from the try body) lands in the arm '
+                  'written for a relay that raised: the whole, unmodified '
+                  'envelope is filed for another attempt - %s'
+                  % (name, consequence),
+                  loc=m.loc(site or t),
+                  reason='no outcome-recording method is reachable from the '
+                  'try body')
+    if n == 0:
+        rep.ok(rule, where, 'no catch-all arm of _attempt files the '
+               'envelope for a retry', nontrivial=False,
+               reason='nothing to scope')
